@@ -2,6 +2,7 @@
    scenarios (TLC-generated + seeded random) -> real code -> NDJSON traces -> Trace_Session.tla."""
 import json
 import multiprocessing as mp
+from .par import RobustPool
 import random
 
 from .common import NPROC, chunks, write_ndjson
@@ -26,7 +27,7 @@ def tlc_scenarios_B(chk, num, depth, seed, cfg="MC_SessionB"):
 def execute(scenarios, backend="z3"):
     """scenarios: list of (tid, steps) -> list of {"t","events"} (parallel, deterministic order)"""
     parts = chunks(scenarios, NPROC * 4)
-    with mp.get_context("fork").Pool(NPROC) as pool:
+    with RobustPool(NPROC) as pool:
         outs = pool.map(session.run_many, [(backend, p) for p in parts])
     return [x for o in outs for x in o]
 
